@@ -32,7 +32,7 @@ def main():
     ck = common.Check(pid, args.tier)
     if not args.no_build:
         ck.buildst = common.build()
-    ck.proof = common.proof_status(pid)
+    ck.proof = common.proof_status(pid, args.tier)
     try:
         mod = importlib.import_module("props." + pid.lower())
         return mod.run(ck)
